@@ -71,7 +71,7 @@ def gen_case(seed, tier, idx):
         cs = cfg["cache_size"]
         tiny_cache = cs is not None and cs <= 3
         if tier == "quick":
-            n = rc.choice([110, 150, 250] if tiny_cache else [120, 400, 1000, 3000])
+            n = rc.choice([105, 130, 160] if tiny_cache else [120, 400, 1000, 3000])
         else:
             n = rc.choice([120, 250, 400] if tiny_cache else [120, 400, 1000, 3000, 10000, 30000, 100000])
         if cfg["halfway"]:
